@@ -154,7 +154,7 @@ func (eval Evaluator) CheckAndGetRelinearizationKey() (evk *RelinearizationKey, 
 // IsBatched <- op0.IsBatched
 // LogDimensions <- max(op0.LogDimensions, op1.LogDimensions)
 //
-// The method returns max(op0.Degree(), op1.Degree(), opOut.Degree()) and min(op0.Level(), op1.Level(), opOut.Level())
+// The method returns max(op0.Degree(), op1.Degree()) and min(op0.Level(), op1.Level(), opOut.Level())
 func (eval Evaluator) InitOutputBinaryOp(op0, op1 *Element[ring.Poly], opInTotalMaxDegree int, opOut *Element[ring.Poly]) (degree, level int, err error) {
 
 	if op0 == nil || op1 == nil || opOut == nil {
@@ -166,7 +166,6 @@ func (eval Evaluator) InitOutputBinaryOp(op0, op1 *Element[ring.Poly], opInTotal
 	}
 
 	degree = utils.Max(op0.Degree(), op1.Degree())
-	degree = utils.Max(degree, opOut.Degree())
 	level = utils.Min(op0.Level(), op1.Level())
 	level = utils.Min(level, opOut.Level())
 
